@@ -41,6 +41,7 @@ DevLast == Dev = "LastKeyDecides"
 DevMemoRoot == Dev = "MemoRootUnsync"
 DevReuse == Dev = "ReuseInputContainer"
 DevRelease == Dev = "ReleaseOutsideLock"
+DevEmpty == Dev = "CacheEmptyUnsync"
 DevNoMutex == Dev = "NoStepMutex"
 DevEnum == Dev = "EnumEarlyReturn"
 
@@ -54,7 +55,8 @@ DevKinds ==
       [] Dev = "SharedMarks" -> {"chain"}
       [] Dev = "SharedInProgress" -> {"compat2"}
       [] Dev = "StaleMemo" -> {"units", "units0"}
-      [] Dev = "SharedError" -> {"disabled"}
+      [] Dev = "SharedError" -> {"disabled", "patnil"}
+      [] Dev = "CacheEmptyUnsync" -> {"emptydef"}
       [] Dev = "SortInPlace" -> {"objdep"}
       [] Dev = "ConvertInPlace" -> {"anylist"}
       [] Dev = "HideRestore" -> {"oneof"}
